@@ -23,16 +23,25 @@ theorem ofx (e now : Int) : Gen.itemOf_expired e now = Gen.item_expired e now :=
   simp [Gen.itemOf_expired, Gen.item_expired]
 theorem ofxw (e now : Int) : Gen.itemOf_expiredWithNow e now = Gen.item_expiredWithNow e now := by
   simp [Gen.itemOf_expiredWithNow, Gen.item_expiredWithNow]
+theorem ofe (d dflt now : Int) : Gen.expirationOf d dflt now = Gen.expiration d dflt now := by
+  simp [Gen.expirationOf, Gen.expiration]
+
+/-- the model's side and the code's side of one call: the per-step actions of a solo thread of M5 over the choices
+`cs` are the trace the interpreter records on the method body, and that same (traced) run ends in the state and
+result of the sequential step -/
+def AgreesOf (g : G K V) (op : COp K V) (cs : List (Choice K V)) : Prop :=
+  ∃ t, soloTrace g L.init (start op :: cs) = some t ∧
+    deepTrace twinMapOfTr (view g) (toSpec op) =
+      some ((Cache.step (view g) (toSpec op)).1, (Cache.step (view g) (toSpec op)).2, t)
 
 macro "trace_simp" : tactic =>
-  `(tactic| simp [soloTrace, evOf, List.replicate, tstep, startOp, start, L.init, view, toSpec, opKey, afterHit,
-      hitResult, missResult, linearize, AMap.load, deepTrace, twinMapOfTr, twinMapOf, deep_simp, DeepTraceOf.ofx, DeepTraceOf.ofxw, *])
+  `(tactic| simp [AgreesOf, soloTrace, evOf, List.replicate, tstep, startOp, start, L.init, view, toSpec, opKey, afterHit,
+      hitResult, missResult, linearize, AMap.load, deepTrace, twinMapOfTr, twinMapOf, deep_simp, DeepTraceOf.ofx, DeepTraceOf.ofxw, DeepTraceOf.ofe, *])
 
 set_option maxRecDepth 8192
 
 theorem trace_set (g : G K V) (k : K) (v : V) (d : Int) :
-    ∃ n, soloTrace g L.init (start (.set k v d) :: List.replicate n {}) =
-      (deepTrace twinMapOfTr (view g) (.set k v d)).map (·.2.2) := by
+    ∃ n, AgreesOf g (.set k v d) (List.replicate n {}) := by
   by_cases h1 : d = Gen.DefaultExpiration
   · refine ⟨3, ?_⟩
     by_cases h3 : g.dflt > 0 <;> trace_simp
@@ -40,8 +49,7 @@ theorem trace_set (g : G K V) (k : K) (v : V) (d : Int) :
     by_cases h2 : d > 0 <;> trace_simp
 
 theorem trace_get (g : G K V) (k : K) :
-    ∃ n, soloTrace g L.init (start (.get k) :: List.replicate n {}) =
-      (deepTrace twinMapOfTr (view g) (.get k)).map (·.2.2) := by
+    ∃ n, AgreesOf g (.get k) (List.replicate n {}) := by
   cases hg : g.items.get k with
   | none => exact ⟨1, by trace_simp⟩
   | some i =>
@@ -50,8 +58,7 @@ theorem trace_get (g : G K V) (k : K) :
     · exact ⟨2, by trace_simp⟩
 
 theorem trace_getWithExpiration (g : G K V) (k : K) :
-    ∃ n, soloTrace g L.init (start (.getWithExpiration k) :: List.replicate n {}) =
-      (deepTrace twinMapOfTr (view g) (.getWithExpiration k)).map (·.2.2) := by
+    ∃ n, AgreesOf g (.getWithExpiration k) (List.replicate n {}) := by
   cases hg : g.items.get k with
   | none => exact ⟨1, by trace_simp⟩
   | some i =>
@@ -60,8 +67,7 @@ theorem trace_getWithExpiration (g : G K V) (k : K) :
     · exact ⟨2, by by_cases hp : i.e > 0 <;> trace_simp⟩
 
 theorem trace_getWithTTL (g : G K V) (k : K) :
-    ∃ n, soloTrace g L.init (start (.getWithTTL k) :: List.replicate n {}) =
-      (deepTrace twinMapOfTr (view g) (.getWithTTL k)).map (·.2.2) := by
+    ∃ n, AgreesOf g (.getWithTTL k) (List.replicate n {}) := by
   cases hg : g.items.get k with
   | none => exact ⟨1, by trace_simp⟩
   | some i =>
@@ -72,8 +78,7 @@ theorem trace_getWithTTL (g : G K V) (k : K) :
       · exact ⟨2, by trace_simp⟩
 
 theorem trace_getAndDelete (g : G K V) (k : K) :
-    ∃ n, soloTrace g L.init (start (.getAndDelete k) :: List.replicate n {}) =
-      (deepTrace twinMapOfTr (view g) (.getAndDelete k)).map (·.2.2) := by
+    ∃ n, AgreesOf g (.getAndDelete k) (List.replicate n {}) := by
   cases hg : g.items.get k with
   | none => exact ⟨1, by trace_simp⟩
   | some i =>
@@ -81,8 +86,7 @@ theorem trace_getAndDelete (g : G K V) (k : K) :
     cases hc : g.cb <;> by_cases he : Gen.item_expired i.e g.now <;> trace_simp
 
 theorem trace_delete (g : G K V) (k : K) :
-    ∃ n, soloTrace g L.init (start (.delete k) :: List.replicate n {}) =
-      (deepTrace twinMapOfTr (view g) (.delete k)).map (·.2.2) := by
+    ∃ n, AgreesOf g (.delete k) (List.replicate n {}) := by
   cases hg : g.items.get k with
   | none => exact ⟨1, by trace_simp⟩
   | some i =>
@@ -90,49 +94,49 @@ theorem trace_delete (g : G K V) (k : K) :
     cases hc : g.cb <;> by_cases he : Gen.item_expired i.e g.now <;> trace_simp
 
 theorem trace_misc (g : G K V) (d : Int) (c : Option Nat) :
-    soloTrace g L.init [start .clear, {}] = (deepTrace twinMapOfTr (view g) .clear).map (·.2.2) ∧
-    soloTrace g L.init [start .count, {}] = (deepTrace twinMapOfTr (view g) .count).map (·.2.2) ∧
-    soloTrace g L.init [start (.setDefaultExpiration d), {}] = (deepTrace twinMapOfTr (view g) (.setDefaultExpiration d)).map (·.2.2) ∧
-    soloTrace g L.init [start (.setEvictedCallback c), {}] = (deepTrace twinMapOfTr (view g) (.setEvictedCallback c)).map (·.2.2) := by
+    AgreesOf g .clear [{}] ∧
+    AgreesOf g .count [{}] ∧
+    AgreesOf g (.setDefaultExpiration d) [{}] ∧
+    AgreesOf g (.setEvictedCallback c) [{}] := by
   refine ⟨?_, ?_, ?_, ?_⟩ <;> trace_simp
 
 /-- the read-modify-write calls are one action: the `Compute`; clock and setting reads inside its closure happen
 under the bucket lock and are not steps -/
 theorem trace_getOrSet (g : G K V) (k : K) (v : V) (d : Int) :
-    soloTrace g L.init [start (.getOrSet k v d), {}] = (deepTrace twinMapOfTr (view g) (.getOrSet k v d)).map (·.2.2) := by
+    AgreesOf g (.getOrSet k v d) [{}] := by
   by_cases h1 : d = Gen.DefaultExpiration <;> by_cases h2 : d > 0 <;> by_cases h3 : g.dflt > 0 <;>
   cases hg : g.items.get k with
   | none => trace_simp
   | some i => by_cases he : Gen.item_expired i.e g.now <;> trace_simp
 
 theorem trace_getAndSet (g : G K V) (k : K) (v : V) (d : Int) :
-    soloTrace g L.init [start (.getAndSet k v d), {}] = (deepTrace twinMapOfTr (view g) (.getAndSet k v d)).map (·.2.2) := by
+    AgreesOf g (.getAndSet k v d) [{}] := by
   by_cases h1 : d = Gen.DefaultExpiration <;> by_cases h2 : d > 0 <;> by_cases h3 : g.dflt > 0 <;>
   cases hg : g.items.get k with
   | none => trace_simp
   | some i => by_cases he : Gen.item_expired i.e g.now <;> trace_simp
 
 theorem trace_getAndRefresh (g : G K V) (k : K) (d : Int) :
-    soloTrace g L.init [start (.getAndRefresh k d), {}] = (deepTrace twinMapOfTr (view g) (.getAndRefresh k d)).map (·.2.2) := by
+    AgreesOf g (.getAndRefresh k d) [{}] := by
   by_cases h1 : d = Gen.DefaultExpiration <;> by_cases h2 : d > 0 <;> by_cases h3 : g.dflt > 0 <;>
   cases hg : g.items.get k with
   | none => trace_simp
   | some i => by_cases he : Gen.item_expired i.e g.now <;> trace_simp
 
 theorem trace_getOrCompute (g : G K V) (k : K) (f : V) (d : Int) :
-    soloTrace g L.init [start (.getOrCompute k f d), {}] = (deepTrace twinMapOfTr (view g) (.getOrCompute k f d)).map (·.2.2) := by
+    AgreesOf g (.getOrCompute k f d) [{}] := by
   by_cases h1 : d = Gen.DefaultExpiration <;> by_cases h2 : d > 0 <;> by_cases h3 : g.dflt > 0 <;>
   cases hg : g.items.get k with
   | none => trace_simp
   | some i => by_cases he : Gen.item_expired i.e g.now <;> trace_simp
 
 theorem trace_compute_absent (g : G K V) (k : K) (f : Option V → V × Bool) (d : Int) (hg : g.items.get k = none) :
-    soloTrace g L.init [start (.compute k f d), {}] = (deepTrace twinMapOfTr (view g) (.compute k f d)).map (·.2.2) := by
+    AgreesOf g (.compute k f d) [{}] := by
   by_cases h1 : d = Gen.DefaultExpiration <;> by_cases h2 : d > 0 <;> by_cases h3 : g.dflt > 0 <;>
   cases hd : (f none).2 <;> trace_simp
 
 theorem trace_compute_present (g : G K V) (k : K) (f : Option V → V × Bool) (d : Int) (i : Item V) (hg : g.items.get k = some i) :
-    soloTrace g L.init [start (.compute k f d), {}] = (deepTrace twinMapOfTr (view g) (.compute k f d)).map (·.2.2) := by
+    AgreesOf g (.compute k f d) [{}] := by
   by_cases he : Gen.item_expired i.e g.now
   · by_cases h1 : d = Gen.DefaultExpiration <;> by_cases h2 : d > 0 <;> by_cases h3 : g.dflt > 0 <;>
     cases hd : (f none).2 <;> trace_simp
@@ -140,7 +144,7 @@ theorem trace_compute_present (g : G K V) (k : K) (f : Option V → V × Bool) (
     cases hd : (f (some i.v)).2 <;> trace_simp
 
 theorem trace_compute (g : G K V) (k : K) (f : Option V → V × Bool) (d : Int) :
-    soloTrace g L.init [start (.compute k f d), {}] = (deepTrace twinMapOfTr (view g) (.compute k f d)).map (·.2.2) := by
+    AgreesOf g (.compute k f d) [{}] := by
   cases hg : g.items.get k with
   | none => exact trace_compute_absent g k f d hg
   | some i => exact trace_compute_present g k f d i hg
@@ -154,13 +158,12 @@ macro "sweep_visitor_eval" now:term : tactic =>
       rename_i items' _ _ _ _ _ _ _
       by_cases he : Gen.item_expiredWithNow i.e $now
       · cases hg : AMap.get items' k with
-        | none => simp [deep_simp, DeepTraceOf.ofx, DeepTraceOf.ofxw, twinMapOfTr, twinMapOf, hide, he, hg, Model.Cache.sweep, Model.Cache.sweepFn, visitEvs]
+        | none => simp [deep_simp, DeepTraceOf.ofx, DeepTraceOf.ofxw, DeepTraceOf.ofe, twinMapOfTr, twinMapOf, hide, he, hg, Model.Cache.sweep, Model.Cache.sweepFn, visitEvs]
         | some c' => by_cases he2 : Gen.item_expiredWithNow c'.e $now <;>
-            simp [deep_simp, DeepTraceOf.ofx, DeepTraceOf.ofxw, twinMapOfTr, twinMapOf, hide, he, hg, he2, Model.Cache.sweep, Model.Cache.sweepFn, visitEvs]
-      · simp [deep_simp, DeepTraceOf.ofx, DeepTraceOf.ofxw, twinMapOfTr, twinMapOf, hide, he, Model.Cache.sweep, visitEvs]))
+            simp [deep_simp, DeepTraceOf.ofx, DeepTraceOf.ofxw, DeepTraceOf.ofe, twinMapOfTr, twinMapOf, hide, he, hg, he2, Model.Cache.sweep, Model.Cache.sweepFn, visitEvs]
+      · simp [deep_simp, DeepTraceOf.ofx, DeepTraceOf.ofxw, DeepTraceOf.ofe, twinMapOfTr, twinMapOf, hide, he, Model.Cache.sweep, visitEvs]))
 
-theorem trace_deleteExpired (g : G K V) :
-    ∃ cs, soloTrace g L.init (start .deleteExpired :: cs) = (deepTrace twinMapOfTr (view g) .deleteExpired).map (·.2.2) := by
+theorem trace_deleteExpired (g : G K V) : ∃ cs, AgreesOf g .deleteExpired cs := by
   obtain ⟨items, now, dflt, cb, ledger, abs⟩ := g
   cases cb with
   | none =>
@@ -168,55 +171,58 @@ theorem trace_deleteExpired (g : G K V) :
     let l0 : L K V := { (startOp L.init .deleteExpired) with pc := .deVisit, ec := none, passNow := now, queue := [] }
     obtain ⟨er, hv⟩ := solo_visits items g l0 rfl rfl
     have ht := trace_visits items g l0 rfl
-    refine ⟨nop :: nop :: (visitChoices now items ++ [{ key := none }, nop]), ?_⟩
     have hq : (Cache.sweep now false items (items, [])).2 = [] := sweep_noCb _ _ _
-    -- the model's side
-    simp only [soloTrace, tstep, start, startOp, L.init, nop, evOf]
-    rw [soloTrace_append]
-    simp only [g, l0, startOp, L.init, Option.isSome] at hv ht
-    rw [hv, ht]
-    simp only [soloTrace, tstep, evOf, hq]
-    -- the code's side
-    simp [deepTrace, deep_simp, twinMapOfTr, twinMapOf, view]
-    rw [loop_sweep_tr (now := now) (hasCb := false) (C := .ecb none) (N := .int now) (ev := [])]
-    case hw => rfl
-    case ha => rfl
-    case hcall => sweep_visitor_eval now
-    simp [deep_simp, hq, loopKvs]
+    refine ⟨nop :: nop :: (visitChoices now items ++ [{ key := none }, nop]),
+      [.loadSetting "evictedCallback", .clock] ++ visitEvs now items, ?_, ?_⟩
+    · -- the model's side
+      simp only [soloTrace, tstep, start, startOp, L.init, nop, evOf]
+      rw [soloTrace_append]
+      simp only [g, l0, startOp, L.init, Option.isSome] at hv ht
+      rw [hv, ht]
+      simp [soloTrace, tstep, evOf, hq]
+    · -- the code's side
+      simp [deepTrace, deep_simp, twinMapOfTr, twinMapOf, view, toSpec]
+      rw [loop_sweep_tr (now := now) (hasCb := false) (C := .ecb none) (N := .int now) (ev := [])]
+      case hw => rfl
+      case ha => rfl
+      case hcall => sweep_visitor_eval now
+      simp [deep_simp, hq, loopKvs]
   | some c =>
     let g : G K V := ⟨items, now, dflt, some c, ledger, abs⟩
     let l0 : L K V := { (startOp L.init .deleteExpired) with pc := .deVisit, ec := some c, passNow := now, queue := [] }
     obtain ⟨er, hv⟩ := solo_visits items g l0 rfl rfl
     have ht := trace_visits items g l0 rfl
-    refine ⟨nop :: nop :: (visitChoices now items ++ ({ key := none } :: List.replicate ((Cache.sweep now true items (items, [])).2.length + 1) nop)), ?_⟩
-    -- the model's side
-    simp only [soloTrace, tstep, start, startOp, L.init, nop, evOf]
-    rw [soloTrace_append]
-    simp only [g, l0, startOp, L.init, Option.isSome] at hv ht
-    rw [hv, ht]
-    simp only [soloTrace, tstep, evOf]
-    rw [trace_fire (Cache.sweep now true items (items, [])).2 c _ _ rfl rfl rfl]
-    -- the code's side
-    simp [deepTrace, deep_simp, twinMapOfTr, twinMapOf, view]
-    rw [loop_sweep_tr (now := now) (hasCb := true) (C := .ecb (some c)) (N := .int now) (ev := [])]
-    case hw => rfl
-    case ha => rfl
-    case hcall => sweep_visitor_eval now
-    simp [deep_simp]
-    rw [loop_cbs_tr (c := c) (h0 := [Val.kvs (Model.Cache.sweep now true items (items, [])).snd, Val.ecb (some c), Val.int now])]
-    case hw => rfl
-    case ha => rfl
-    case hbody =>
-      intro k a w hw ha
-      cases w; simp only at hw ha; subst hw; subst ha
-      simp [deep_simp, DeepTraceOf.ofx, DeepTraceOf.ofxw, twinMapOfTr, twinMapOf, hide]
-    simp [deep_simp]
+    refine ⟨nop :: nop :: (visitChoices now items ++ ({ key := none } :: List.replicate ((Cache.sweep now true items (items, [])).2.length + 1) nop)),
+      [.loadSetting "evictedCallback", .clock] ++ visitEvs now items ++
+        (Cache.sweep now true items (items, [])).2.map (fun p => .fire c p.1 p.2), ?_, ?_⟩
+    · -- the model's side
+      simp only [soloTrace, tstep, start, startOp, L.init, nop, evOf]
+      rw [soloTrace_append]
+      simp only [g, l0, startOp, L.init, Option.isSome] at hv ht
+      rw [hv, ht]
+      simp only [soloTrace, tstep, evOf]
+      rw [trace_fire (Cache.sweep now true items (items, [])).2 c _ _ rfl rfl rfl]
+      simp
+    · -- the code's side
+      simp [deepTrace, deep_simp, twinMapOfTr, twinMapOf, view, toSpec]
+      rw [loop_sweep_tr (now := now) (hasCb := true) (C := .ecb (some c)) (N := .int now) (ev := [])]
+      case hw => rfl
+      case ha => rfl
+      case hcall => sweep_visitor_eval now
+      simp [deep_simp]
+      rw [loop_cbs_tr (c := c) (h0 := [Val.kvs (Model.Cache.sweep now true items (items, [])).snd, Val.ecb (some c), Val.int now])]
+      case hw => rfl
+      case ha => rfl
+      case hbody =>
+        intro k a w hw ha
+        cases w; simp only at hw ha; subst hw; subst ha
+        simp [deep_simp, DeepTraceOf.ofx, DeepTraceOf.ofxw, DeepTraceOf.ofe, twinMapOfTr, twinMapOf, hide]
+      simp [deep_simp]
 
 /-- **M5 splits every call into exactly the atomic actions of the source text.**  For every state and every call
 of the concurrent model's interface: the actions of a thread running the call alone (one per step of M5, `evOf`)
 are the actions the interpreter records when it runs the method body printed from the working tree. -/
-theorem trace_eq (g : G K V) (op : COp K V) :
-    ∃ cs, soloTrace g L.init (start op :: cs) = (deepTrace twinMapOfTr (view g) (toSpec op)).map (·.2.2) := by
+theorem trace_eq (g : G K V) (op : COp K V) : ∃ cs, AgreesOf g op cs := by
   cases op with
   | set k v d => obtain ⟨n, h⟩ := trace_set g k v d; exact ⟨_, h⟩
   | get k => obtain ⟨n, h⟩ := trace_get g k; exact ⟨_, h⟩
@@ -240,9 +246,11 @@ every method of the concurrent interface: the recorded trace contains no `called
 theorem callbacks_unlocked (s : CSt K V) (op : COp K V) :
     ∀ r, deepTrace twinMapOfTr s (toSpec op) = some r → Ev.calledLocked ∉ r.2.2 := by
   intro r hr
-  obtain ⟨cs, h⟩ := trace_eq (⟨s.items, s.now, s.dflt, s.cb, [], TTL.init s.dflt s.cb s.now⟩ : G K V) op
+  obtain ⟨cs, t, h1, h2⟩ := trace_eq (⟨s.items, s.now, s.dflt, s.cb, [], TTL.init s.dflt s.cb s.now⟩ : G K V) op
   have hv : view (⟨s.items, s.now, s.dflt, s.cb, [], TTL.init s.dflt s.cb s.now⟩ : G K V) = s := rfl
-  rw [hv, hr] at h
-  exact soloTrace_unlocked _ _ _ _ h
+  rw [hv, hr] at h2
+  injection h2 with h2
+  subst h2
+  exact soloTrace_unlocked _ _ _ _ h1
 
 end DeepTraceOf
